@@ -130,7 +130,7 @@ def gen_fault(rnd, callable_metric, callable_sampler, builtin):
 
 def generate(rnd, tier):
     is_group = rnd.random() < 0.35
-    big = rnd.random() < 0.08
+    big = rnd.random() < (0.2 if is_group else 0.08)  # large grouped sources: where "dynamic" resolves differently per class
     if is_group:
         obj = c12.gen_gs(rnd, big)
         obj["swaps"] = 0
@@ -451,6 +451,21 @@ def execute(scn, ctx):
                             if not isinstance(smp, type(src)) or (smp.score_class, smp.equal_class) != (src.score_class, src.equal_class):
                                 bad("rows_from_sampler", "metric was evaluated on an object that is not a resample of the source")
                                 break
+                        else:
+                            # built-in string sampler: what the metric saw must be something the *configured* sampler can
+                            # produce, i.e. satisfy that configuration's contract (the per-sample invariants of C11 / C12)
+                            tmp = []
+                            inner_cfg = {k_: v_ for k_, v_ in sspec.items() if k_ in ("sampling_method", "stratified_sampling", "smoothing", "ratio")}
+                            for smp, _ in col:
+                                if is_group:
+                                    c12.check_sample(src, c12.Model.from_object(src), inner_cfg, c12.effective(inner_cfg, src), smp, tmp, tags, f"op {step}")
+                                else:
+                                    c11.check_sample(src, fp_before, inner_cfg, c11.effective_method(inner_cfg, src), smp, None, tmp, tags)
+                                if tmp:
+                                    break
+                            if tmp:
+                                bad("sample_from_configured_sampler", f"a sample the metric was evaluated on violates the contract of the configured sampler "
+                                                                      f"{inner_cfg}: {tmp[0]['invariant']}: {tmp[0]['detail']}")
                     reps = [v for _, v in col] if len(col) == nb else None
                     if len(col) != nb:
                         bad("one_row_per_sample", f"{len(col)} samples were evaluated for nb_samples={nb}")
